@@ -3,6 +3,7 @@ package worlds
 import (
 	"encoding/json"
 	"fmt"
+	"strings"
 	"time"
 
 	"github.com/jech/galene/group"
@@ -145,6 +146,9 @@ type confExec struct {
 	w    *confWorld
 	p    *confPlan
 	opIx int
+	groups []confGroup // working copy of the group definitions
+	extra func(op *confOp) bool // profile-specific operations
+	onWhipResource func(op *confOp, s whipSession, res httpResult)
 }
 
 func (x *confExec) client(i int) *simClient {
@@ -169,6 +173,8 @@ func destID(x *confExec, d int) string {
 
 func (x *confExec) run() {
 	w := x.w
+	// the plan is never modified (it is saved for replay after the run)
+	x.groups = append([]confGroup{}, x.p.Groups...)
 	for i := range x.p.Groups {
 		w.putGroup(x.p.Groups[i].Name, descOf(&x.p.Groups[i]))
 	}
@@ -186,6 +192,9 @@ func (x *confExec) run() {
 }
 
 func (x *confExec) do(op *confOp) {
+	if x.extra != nil && x.extra(op) {
+		return
+	}
 	w := x.w
 	sc := x.client(op.C)
 	c := w.c
@@ -338,7 +347,11 @@ func (x *confExec) do(op *confOp) {
 		if sc == nil || !sc.alive() {
 			return
 		}
-		sc.send([]byte(op.Raw), x.opIx)
+		raw := op.Raw
+		if raw == "BIG" { // exceeds the server's 1 MiB read limit
+			raw = `{"type":"chat","value":"` + strings.Repeat("x", 1100000) + `"}`
+		}
+		sc.send([]byte(raw), x.opIx)
 		c.Count("ops.raw", 1)
 	case "msg": // arbitrary JSON object
 		if sc == nil || !sc.alive() {
@@ -359,9 +372,9 @@ func (x *confExec) do(op *confOp) {
 		group.Update()
 		c.Count("ops.update", 1)
 	case "editdesc":
-		for i := range x.p.Groups {
-			if x.p.Groups[i].Name == op.Group {
-				g := x.p.Groups[i]
+		for i := range x.groups {
+			if x.groups[i].Name == op.Group {
+				g := x.groups[i]
 				switch op.Sub {
 				case "max":
 					g.Max = op.N
@@ -370,7 +383,7 @@ func (x *confExec) do(op *confOp) {
 				case "record":
 					g.Record = op.Flag
 				}
-				x.p.Groups[i] = g
+				x.groups[i] = g
 				w.putGroup(g.Name, descOf(&g))
 				c.Count("ops.editdesc", 1)
 			}
